@@ -1,0 +1,56 @@
+//go:build verif
+
+package olareg
+
+import (
+	"context"
+	"time"
+
+	"github.com/opencontainers/go-digest"
+
+	"github.com/olareg/olareg/internal/store"
+)
+
+// This file is only compiled with the "verif" build tag.
+// It exposes synchronous triggers and read-only views used by the external verification harness.
+
+// VerifGC runs one garbage collection of a single repository synchronously.
+func (s *Server) VerifGC(repo string) error {
+	return store.VerifRepoGC(s.store, repo)
+}
+
+// VerifGCPass runs one store wide garbage collection pass with explicit tick times.
+func (s *Server) VerifGCPass(cur, prev time.Time) error {
+	return store.VerifStoreGC(s.store, cur, prev)
+}
+
+// VerifSetBlobTime sets the modification time tracked for a blob.
+func (s *Server) VerifSetBlobTime(repo string, d digest.Digest, t time.Time) error {
+	return store.VerifSetBlobTime(s.store, repo, d, t)
+}
+
+// VerifSetRepoTime sets the modification time tracked for a repository.
+func (s *Server) VerifSetRepoTime(repo string, t time.Time) error {
+	return store.VerifSetRepoTime(s.store, repo, t)
+}
+
+// VerifSessions lists the upload sessions of a repository without refreshing them.
+func (s *Server) VerifSessions(repo string) ([]string, error) {
+	return store.VerifSessions(s.store, repo)
+}
+
+// VerifRepos lists the repositories tracked by the store.
+func (s *Server) VerifRepos() ([]string, error) {
+	return store.VerifRepos(s.store)
+}
+
+// VerifTapStore reports every store call made by a handler to tap.
+// The actor label is taken from the request context value stored under VerifActorKey.
+func (s *Server) VerifTapStore(tap func(actor, repo, call, arg string, post bool, err error)) {
+	s.store = store.VerifTapStore(s.store, tap)
+}
+
+// VerifWithActor labels a request context for VerifTapStore.
+func VerifWithActor(ctx context.Context, actor string) context.Context {
+	return context.WithValue(ctx, store.VerifCtxKey{}, actor)
+}
